@@ -52,6 +52,8 @@ STEP = ["qpos", "qvel", "act"]
 COUNTS = (("nacon", "ncon"), ("nefc", "nefc"), ("ne", "ne"), ("nf", "nf"), ("nl", "nl"))
 # float32 (MJWarp) vs float64 (MuJoCo): |a-b| <= RTOL * (1 + max|.|) per field, the rule of bin/mjcmp.py.
 RTOL = 1e-3
+# a run whose MJWarp constraint solution has a relative KKT residual above this is not compared (converged runs: ~1e-6)
+SOLVER_RESID = 1e-3
 
 FLAG_XML = """
 <mujoco>
@@ -450,10 +452,29 @@ def oracle_case(xml, kind, seed, dis, enb, nstep=2, integrator=None):
   mjw.forward(mm, dd)
   mujoco.mj_forward(m, ds)
   out = {"fwd": [], "counts": {}, "step": [], "skipped": ""}
+  # MJWarp's own KKT residual M qacc - qfrc_smooth - qfrc_constraint, relative to the forces: when its constraint
+  # solver stopped far from the optimum (deep-penetration contact problems; MuJoCo converges on them) a difference
+  # from MuJoCo is a solver-convergence matter (C06), whatever the flags
+  out["solver_residual"] = 0.0
+  if int(dd.nefc.numpy()[0]) > 0 and m.nv:
+    ma, fs, fc = (x.numpy()[0].astype(np.float64) for x in (dd.efc.Ma, dd.qfrc_smooth, dd.qfrc_constraint))
+    out["solver_residual"] = float(np.max(np.abs(ma - fs - fc)) / (1.0 + max(np.max(np.abs(ma)), np.max(np.abs(fs)), np.max(np.abs(fc)))))
   for a, b in COUNTS:
     x, y = int(np.asarray(getattr(dd, a).numpy()).reshape(-1)[0]), int(getattr(ds, b))
     if x != y:
       out["counts"][a] = (x, y)
+  # same number of contacts but a different contact GEOMETRY (distance, position, normal or tangent frame: the
+  # friction pyramid depends on the tangents) is a collision matter (C04 / C20), whatever the flags
+  out["contact_geometry_differs"] = False
+  nc = int(ds.ncon)
+  if nc and "nacon" not in out["counts"]:
+    def cset(geom, dist, pos, frame):
+      return sorted((tuple(int(g) for g in geom[i]), round(float(dist[i]), 4), tuple(np.round(np.asarray(pos[i], dtype=np.float64), 4) + 0.0), tuple(np.round(np.asarray(frame[i], dtype=np.float64).reshape(-1), 3) + 0.0)) for i in range(nc))
+    cw = cset(dd.contact.geom.numpy(), dd.contact.dist.numpy(), dd.contact.pos.numpy(), dd.contact.frame.numpy())
+    cm = cset(ds.contact.geom, ds.contact.dist, ds.contact.pos, ds.contact.frame)
+    for a, b in zip(cw, cm):
+      if a[0] != b[0] or abs(a[1] - b[1]) > 2e-4 or max(abs(x - y) for x, y in zip(a[2], b[2])) > 2e-4 or max(abs(x - y) for x, y in zip(a[3], b[3])) > 2e-3:
+        out["contact_geometry_differs"] = True
   fwd = [] if out["counts"] else mjcmp.compare_fields(dd, ds, FWD, rtol=RTOL)  # different active sets = different problems
   out["fwd"] = fwd
   e = dd.energy.numpy()[0].astype(np.float64)
@@ -729,7 +750,7 @@ def run(res):
     for names, dv, ev in pick:
       cases.append((f"random{k}", xml, "random", vlib.seed() + 7000 + k, names, dv, ev, None))
   base_bad = {}
-  mism, nskip, ncount = [], 0, 0
+  mism, nskip, ncount, nunconv, ngeom = [], 0, 0, 0, 0
   worst = 0.0
   for mname, xml, kind, seed, names, dv, ev, integ in cases:
     try:
@@ -741,6 +762,21 @@ def run(res):
       nskip += 1
       continue
     bad_fields = [f for f, _ in r["fwd"]] + [f for f, _ in r["step"]] + list(r["counts"])
+    if r.get("contact_geometry_differs") and not r["counts"]:
+      # also without a visible mismatch: nothing on this contact set can be attributed to a flag
+      nskip += 1
+      ngeom += 1
+      if ngeom <= 3:
+        res.notes.append(f"oracle: {mname} flags {list(names)}: same contact count but different contact geometry (dist / pos / frame) in MJWarp and MuJoCo; run not attributed to a flag (collision geometry, C04 / C20)" + (f"; fields that differ: {sorted(set(bad_fields))}" if bad_fields else ""))
+      if not names:
+        base_bad[mname] = {"contact-geometry"}
+      continue
+    if bad_fields and not r["counts"] and r.get("solver_residual", 0.0) > SOLVER_RESID:
+      nskip += 1
+      nunconv += 1
+      if nunconv <= 3:
+        res.notes.append(f"oracle: {mname} flags {list(names)}: MJWarp's constraint solver stopped with relative KKT residual {r['solver_residual']:.2g} (MuJoCo converged); the difference in {sorted(bad_fields)} is not attributed to a flag (solver convergence, C06)")
+      continue
     if not names:
       base_bad[mname] = set(bad_fields)  # disagreement without any flag: not a flag defect, excluded below
       if bad_fields:
@@ -757,7 +793,7 @@ def run(res):
     new = bad_fields
     if new:
       mism.append({"model": mname, "flags": list(names), "disableflags": int(dv), "enableflags": int(ev), "fields": new, "errors": [(f, e) for f, e in r["fwd"] + r["step"]][:6], "counts": r["counts"], "exception": r.get("exception"), "xml": xml, "state_kind": kind, "seed": seed, "integrator": integ})
-  res.obligation("oracle: mjw.forward/step == mujoco under identical flags", not mism, f"{len(cases)} runs, {nskip} skipped (unstable / overflow / model disagrees without flags), {ncount} with active constraints, {len(mism)} mismatches")
+  res.obligation("oracle: mjw.forward/step == mujoco under identical flags", not mism, f"{len(cases)} runs, {nskip} skipped (unstable / overflow / model disagrees without flags / {nunconv} MJWarp solver not converged / {ngeom} contact geometry differs), {ncount} with active constraints, {len(mism)} mismatches")
   res.sample({"kind": "oracle", "runs": len(cases), "skipped": nskip, "with_constraints": ncount})
   for f in mism[:4]:
     found = True
